@@ -749,6 +749,18 @@ func fieldPath(t types.Type, name string) ([]int, bool) {
 	if _, ok := obj.(*types.Var); ok {
 		return idx, true
 	}
+	// anonymous struct types (e.g. `mu struct{...}`): direct fields by name
+	bt := t
+	if p, ok := bt.(*types.Pointer); ok {
+		bt = p.Elem()
+	}
+	if stt, ok := bt.Underlying().(*types.Struct); ok {
+		for i := 0; i < stt.NumFields(); i++ {
+			if stt.Field(i).Name() == name {
+				return []int{i}, true
+			}
+		}
+	}
 	return nil, false
 }
 
